@@ -19,7 +19,7 @@ pub static DEF: PropDef = PropDef {
     assumptions: &["byte-level mutations are not used: the adapter cannot change the 4 GB default limit and a misaligned parse could legitimately allocate gigabytes per worker", "inputs whose limited pre-screen (16 MiB) reports InvalidTagSize are skipped: the adapter cannot change the 4 GB default limit and a legitimate GB allocation per worker would exhaust the box", "zero-length reads in the middle of the data are not injected: Ok(0) means end of stream for an AsyncRead"],
     cases_quick: 60_000,
     cases_thorough: 800_000,
-    floors: &[("schedules_compared", 20_000), ("non_starved_schedules", 8_000), ("stream_adapter_runs", 3_000), ("distinct_nontrivial", 60), ("exhaustive_partition_inputs", 20), ("inputs_over_64k", 3), ("default_limit_probes", 20), ("async_io_fault_probes", 300)],
+    floors: &[("schedules_compared", 20_000), ("non_starved_schedules", 8_000), ("stream_adapter_runs", 3_000), ("distinct_nontrivial", 60), ("exhaustive_partition_inputs", 20), ("inputs_over_64k", 3), ("default_limit_probes", 20), ("async_io_fault_probes", 300), ("after_error_probes", 100)],
     exhaustive_note: Some("all 2^(n-1) partitions of inputs of <= 8 (quick) / <= 10 (thorough) bytes"),
     run,
 };
@@ -161,6 +161,92 @@ fn starved_by_simulation(bytes: &[u8], reads: &[usize], buffered: &[u64]) -> boo
         }
     });
     r.is_err() || pe.get()
+}
+
+/// The item sequence does not stop at an error: the blocking iterator steps over an element whose payload does not decode
+/// (its header is intact) and goes on, so the adapter — through `next()` and through the stream — has to hand out the same
+/// sequence of items *and errors*. A small valid document gets one byte of a Utf8 payload replaced by 0xFF (sizes and
+/// alignment stay intact) and arrives with the first read; all three consumers are driven until `None`.
+fn run_after_error_probe(c: &mut Case) {
+    let mut m = Mix::MOSTLY_VALID;
+    m.small = c.rng.chance(1, 2);
+    m.mutated = 0;
+    m.truncated = 0;
+    m.middoc = 0;
+    let inp = gen_input(&mut c.rng, c.tier, &m);
+    inp.spec.install();
+    let texts: Vec<&crate::refcodec::Lay> = inp.lay.iter().filter(|l| !l.is_master && l.end > l.data_start && inp.spec.get(l.id).map(|e| e.ty == crate::spec::Ty::S).unwrap_or(false)).collect();
+    if texts.is_empty() || inp.bytes.len() > 60_000 {
+        c.count("vacuous_after_error_no_text_element");
+        return;
+    }
+    let l = *c.rng.pick(&texts);
+    let mut bytes = inp.bytes.clone();
+    bytes[c.rng.urange(l.data_start, l.end - 1)] = 0xFF;
+    let cap = 2 * inp.lay.len() + 24;
+    // blocking reference: every result until None
+    let mut it = crate::rd::make_iter(&bytes[..], &RCfg { allow: 0, buffered: vec![], capacity: None, max_size: MaxSz::Default, eof_end: true });
+    let mut want: Vec<String> = Vec::new();
+    for _ in 0..cap {
+        match crate::rd::next_ev(&mut it, crate::rd::step_budget(bytes.len(), want.len())) {
+            Ev::Item(i, o) => want.push(format!("{}@{}", i.short(), o)),
+            Ev::Err(e) => want.push(format!("Err({})", e.short())),
+            Ev::None => break,
+            Ev::Caught(_) => {
+                c.count("vacuous_after_error_blocking_caught");
+                return;
+            }
+        }
+    }
+    if !want.iter().any(|x| x.starts_with("Err(")) || want.len() >= cap {
+        c.count("vacuous_after_error_no_error_or_endless");
+        return;
+    }
+    let drive = |stream: bool| -> Result<Vec<String>, Caught> {
+        let src = ScriptedAsyncRead::new(ScriptedRead::new(bytes.clone()), 0);
+        let mut it: TagIteratorAsync<ScriptedAsyncRead, DynTag> = TagIteratorAsync::new(src, &[]);
+        guard(1 << 26, || {
+            futures::executor::block_on(async {
+                let mut got = Vec::new();
+                if stream {
+                    let s = it.into_stream();
+                    futures::pin_mut!(s);
+                    while let Some(x) = s.next().await {
+                        got.push(match x { Ok(t) => Item::from_tag(&t).short(), Err(e) => format!("Err({})", ErrRec::from(&e).short()) });
+                        if got.len() >= cap {
+                            break;
+                        }
+                    }
+                } else {
+                    while let Some(x) = it.next().await {
+                        got.push(match x { Ok(t) => format!("{}@{}", Item::from_tag(&t).short(), it.last_emitted_tag_offset()), Err(e) => format!("Err({})", ErrRec::from(&e).short()) });
+                        if got.len() >= cap {
+                            break;
+                        }
+                    }
+                }
+                got
+            })
+        })
+    };
+    c.eval();
+    c.count("after_error_probes");
+    for (name, stream) in [("next", false), ("stream", true)] {
+        let want_cmp: Vec<String> = if stream { want.iter().map(|x| if x.starts_with("Err(") { x.clone() } else { x.rsplitn(2, '@').last().unwrap_or(x).to_string() }).collect() } else { want.clone() };
+        match drive(stream) {
+            Err(cg) => c.violation(format!("C20/after-error/{}-{}", name, cg.sig()), cg.text(), inp.to_json().set("corrupted_bytes", J::hex(&bytes))),
+            Ok(got) if got != want_cmp => {
+                let k = got.iter().zip(want_cmp.iter()).position(|(a, b)| a != b).unwrap_or(got.len().min(want_cmp.len()));
+                c.violation(
+                    format!("C20/after-error/{}-differs", name),
+                    format!("with an undecodable text payload the blocking iterator yields {} results, the adapter's {} {}; first difference at result {}: {} vs {}", want_cmp.len(), name, got.len(), k, got.get(k).cloned().unwrap_or("<none>".into()), want_cmp.get(k).cloned().unwrap_or("<none>".into())),
+                    inp.to_json().set("corrupted_bytes", J::hex(&bytes)).set("blocking", J::Arr(want_cmp.iter().take(40).map(|x| J::s(x.clone())).collect())).set("adapter", J::Arr(got.iter().take(40).map(|x| J::s(x.clone())).collect())),
+                );
+            }
+            Ok(_) => {}
+        }
+    }
+    c.nontrivial(mix(hash_str("after-error"), want.len().min(8) as u64));
 }
 
 /// The adapter must apply the same default size limit as the blocking iterator: masters (no allocation involved)
@@ -322,6 +408,10 @@ fn run(c: &mut Case) {
     }
     if c.idx % 40 == 13 {
         run_io_fault_probe(c);
+        return;
+    }
+    if c.idx % 40 == 27 {
+        run_after_error_probe(c);
         return;
     }
     let big = c.rng.chance(1, 400) || (c.tier == Tier::Thorough && c.rng.chance(1, 2000));
